@@ -23,7 +23,20 @@ import (
 // not; c14HashAxioms makes the uninterpreted hash of the encoding agree with that much of the
 // real function - H(0) == H(1), all other pairs distinct, the values themselves stay symbolic -
 // so that a counterexample about colliding addresses replays against the real build.
-var c14Addrs = []string{"10.0.1.16:5319", "10.0.2.47:8124", "10.0.0.3:1003", "10.0.0.4:1004"}
+//
+// Entry 3 is a second SPELLING of entry 2 (an IPv4-mapped IPv6 literal; net.ResolveTCPAddr
+// resolves both to "10.0.0.3:1003", natively and in the stub): an address may be written in
+// several ways (localhost / 127.0.0.1, leading zeros, mapped literals), and a configuration
+// must still list the node once.
+var c14Addrs = []string{"10.0.1.16:5319", "10.0.2.47:8124", "10.0.0.3:1003", "[::ffff:10.0.0.3]:1003", "10.0.0.4:1004"}
+
+// c14Canon: index of the pool entry an entry resolves to.
+func c14Canon(a int) int {
+	if a == 3 {
+		return 2
+	}
+	return a
+}
 
 func c14HashAxioms() {
 	if !vIsEngine() {
@@ -32,8 +45,8 @@ func c14HashAxioms() {
 	h := func(i int) uint32 { return vUF32("fnv", uint64(i)) }
 	vAssume(h(0) == h(1))
 	vAssume(h(2) != h(0))
-	vAssume(h(3) != h(0))
-	vAssume(h(2) != h(3))
+	vAssume(h(4) != h(0))
+	vAssume(h(2) != h(4))
 }
 
 type vHash32 struct {
@@ -72,6 +85,16 @@ func c14CheckConfig(mgr *RawManager, c RawConfiguration, tag string) {
 		n, ok := mgr.Node(ids[i])
 		vAssert(ok && n == nodes[i], "C14.node-not-pooled."+tag)
 	}
+}
+
+// c14Resolved: the resolved form of a pool spelling.
+func c14Resolved(addr string) string {
+	for i, a := range c14Addrs {
+		if a == addr {
+			return c14Addrs[c14Canon(i)]
+		}
+	}
+	return addr
 }
 
 func c14Has(c RawConfiguration, id uint32) bool {
@@ -120,11 +143,16 @@ func c14Build(mgr *RawManager, tag string, maxEntries, pool int) (RawConfigurati
 		}
 		vReach("map-accepted")
 		c14CheckConfig(mgr, cfg, "map")
-		// one node per entry, carrying the entry's address and id - or the creation fails
-		vAssert(cfg.Size() == len(m), "C14.map-entries-merged")
+		// one node per distinct id, carrying the (resolved) address of every entry that names
+		// it - or the creation fails
+		dids := map[uint32]bool{}
+		for _, id := range mids {
+			dids[id] = true
+		}
+		vAssert(cfg.Size() == len(dids), "C14.map-entries-merged")
 		for a, id := range mids {
 			n, ok := mgr.Node(id)
-			vAssert(ok && n.Address() == a && c14Has(cfg, id), "C14.map-entry-lost")
+			vAssert(ok && n.Address() == c14Resolved(a) && c14Has(cfg, id), "C14.map-entry-lost")
 		}
 		return cfg, true
 	}
@@ -132,7 +160,7 @@ func c14Build(mgr *RawManager, tag string, maxEntries, pool int) (RawConfigurati
 	distinct := map[int]bool{}
 	for _, a := range picked {
 		l = append(l, c14Addrs[a])
-		distinct[a] = true
+		distinct[c14Canon(a)] = true
 	}
 	snapshot := append([]string{}, l...)
 	cfg, err := NewRawConfiguration(mgr, WithNodeList(l))
@@ -262,13 +290,93 @@ func VerifC14NewNodes(maxEntries, pool int) {
 	}
 	found := false
 	for _, n := range r {
-		if n.Address() == c14Addrs[a] {
+		if n.Address() == c14Resolved(c14Addrs[a]) {
 			found = true
 		} else {
 			vAssert(c14Has(c1, n.id), "C14.newnodes-extra-member")
 		}
 	}
 	vAssert(found, "C14.newnodes-new-address-missing")
+}
+
+// VerifC14Algebra: the set algebra over a pool of registered nodes with symbolic, strictly
+// increasing ids. Both operands are arbitrary non-empty subsets (symbolic bit masks), so the
+// removed set may hold ids the left operand lacks, in any number and position - the inputs on
+// which a merge-style or position-based difference goes wrong. WithoutNodes additionally
+// receives its ids unsorted, repeated and with an id no node has.
+func VerifC14Algebra(pool int) {
+	mgr := NewRawManager(WithNoConnect())
+	ids := make([]uint32, pool)
+	m := map[string]uint32{}
+	addrs := []string{"10.0.1.16:5319", "10.0.2.47:8124", "10.0.0.3:1003", "10.0.0.4:1004", "10.0.0.5:1005", "10.0.0.6:1006"}
+	for i := 0; i < pool; i++ {
+		ids[i] = vUint32("id")
+		if i > 0 {
+			vAssume(ids[i] > ids[i-1])
+		}
+		m[addrs[i]] = ids[i]
+	}
+	_, err := NewRawConfiguration(mgr, WithNodeMap(m))
+	vAssert(err == nil, "C14.pool-rejected")
+	pick := func(tag string) (RawConfiguration, int) {
+		mask := 1 + vChoice(tag, (1<<uint(pool))-1)
+		var sel []uint32
+		for i := pool - 1; i >= 0; i-- { // handed over in decreasing order
+			if mask>>uint(i)&1 == 1 {
+				sel = append(sel, ids[i])
+			}
+		}
+		c, err := NewRawConfiguration(mgr, WithNodeIDs(sel))
+		vAssert(err == nil, "C14.withnodeids-rejected")
+		c14CheckConfig(mgr, c, "subset")
+		return c, mask
+	}
+	c1, m1 := pick("c1")
+	c2, m2 := pick("c2")
+	s1, s2 := c14Snapshot(c1), c14Snapshot(c2)
+	op := vChoice("op", 3)
+	var r RawConfiguration
+	wantMask := m1 &^ m2
+	switch op {
+	case 0:
+		r, err = NewRawConfiguration(mgr, c1.And(c2))
+		wantMask = m1 | m2
+	case 1:
+		r, err = NewRawConfiguration(mgr, c1.Except(c2))
+	case 2:
+		unknown := vUint32("unknown-id")
+		for _, id := range ids {
+			vAssume(unknown != id)
+		}
+		rm := append([]uint32{unknown}, c2.NodeIDs()...)
+		for i := len(c2) - 1; i >= 0; i-- { // and once more, in reverse
+			rm = append(rm, c2[i].id)
+		}
+		r, err = NewRawConfiguration(mgr, c1.WithoutNodes(rm...))
+	}
+	c14Unchanged(c1, s1, "c1")
+	c14Unchanged(c2, s2, "c2")
+	if err != nil {
+		vReach("algebra2-rejected")
+		vAssert(wantMask == 0, "C14.nonempty-result-rejected")
+		return
+	}
+	vReach("algebra2-accepted")
+	c14CheckConfig(mgr, r, "algebra")
+	vAssert(wantMask != 0, "C14.empty-configuration-without-error.algebra")
+	for i := 0; i < pool; i++ {
+		if wantMask>>uint(i)&1 == 1 {
+			vAssert(c14Has(r, ids[i]), "C14.algebra-member-missing")
+		} else {
+			vAssert(!c14Has(r, ids[i]), "C14.algebra-extra-member")
+		}
+	}
+	vAssert(r.Size() == len(r.NodeIDs()), "C14.size-agreement.algebra")
+}
+
+func VerifC14AlgebraTwin(pool int) {
+	VerifC14Algebra(pool)
+	vFail("C14.twin")
 }
 
 func VerifC14Twin(maxEntries, withAlgebra, pool int) {
